@@ -4,11 +4,11 @@ use crate::support::*;
 use educe::Educe;
 use core::cmp::Ordering;
 #[derive(Educe)]
-#[educe(PartialEq, Ord, Eq)]
-pub struct T(#[educe(Ord(method(m_cmp)))] A<0>);
-impl PartialOrd for T { fn partial_cmp(&self, o: &Self) -> Option<Ordering> { Some(::core::cmp::Ord::cmp(self, o)) } }
-pub fn values() -> Vec<T> { vec![T(A(0)), T(A(1)), T(A(7))] }
-pub fn show(x: &T) -> String { #[allow(unused_variables)] match x { T(p0) => format!("T({})", sv(p0)) } }
-pub fn o_disc(x: &T) -> i128 { match x { T(_) => 0 } }
-pub fn o_cmp(a: &T, b: &T) -> Ordering { match (a, b) { (T(a0), T(b0)) => { let c = m_cmp(a0, b0); if c != Ordering::Equal { return c; } Ordering::Equal } } }
-pub fn run(out: &mut Out) { let vs = values(); for (i, a) in vs.iter().enumerate() { for (j, b) in vs.iter().enumerate() { let e = o_cmp(a, b); let g = ::core::cmp::Ord::cmp(a, b); out.check(g == e, "ord_13", "cmp", || format!("cmp({}, {}) = {:?} expected {:?}", show(a), show(b), g, e)); } } }
+#[educe(PartialOrd, Ord, Eq, PartialEq)]
+pub struct T;
+
+pub fn values() -> Vec<T> { vec![T] }
+pub fn show(x: &T) -> String { #[allow(unused_variables)] match x { T => format!("T()") } }
+pub fn o_disc(x: &T) -> i128 { match x { T => 0 } }
+pub fn o_cmp(a: &T, b: &T) -> Ordering { match (a, b) { (T, T) => {  Ordering::Equal } } }
+pub fn run(out: &mut Out) { let vs = values(); for (i, a) in vs.iter().enumerate() { for (j, b) in vs.iter().enumerate() { let e = o_cmp(a, b); let g = ::core::cmp::Ord::cmp(a, b); out.check(g == e, "ord_13", "cmp", || format!("cmp({}, {}) = {:?} expected {:?}", show(a), show(b), g, e)); let g2 = ::core::cmp::PartialOrd::partial_cmp(a, b); out.check(g2 == Some(e), "ord_13", "partial_is_some_cmp", || format!("partial_cmp({}, {}) = {:?} expected Some({:?})", show(a), show(b), g2, e)); } } }
